@@ -73,13 +73,10 @@ def groupJudge (f : List String) (out : String) : String :=
     | _, _ => "bad:unparsable:" ++ out
   | _, _ => "bad:unparsable:" ++ out
 
-def chainOf (ls : List Line) : List Dir :=
-  siteMiddleware addsMiddleware (execSeq D [{ keys := ["site"], lines := ls }]) 0 0
-
 def permModel (f : List String) : String :=
   match parseCase false f with
   | none => "bad-case"
-  | some (ls, ls') => ",".intercalate (chainOf ls) ++ "#" ++ ",".intercalate (chainOf ls') ++ "#equal"
+  | some (ls, ls') => ",".intercalate (chainOf D ls) ++ "#" ++ ",".intercalate (chainOf D ls') ++ "#equal"
 
 def parseChain (s : String) : List Dir := if s = "" then [] else s.splitOn ","
 
